@@ -227,7 +227,7 @@ def check(run):
         if s is not None:
             specs.append(s)
             k += 1
-    units = [shards.Unit("u_" + s.name.lower(), glue(s, thorough), meta={"enum_src": s.render()}, sig=s.signature()) for s in specs]
+    units = [shards.Unit("u_" + s.name.lower(), glue(s, thorough), meta={"enum_src": s.render(), "bare_src": s.render_bare()}, sig=s.signature()) for s in specs]
     run.rule = RULE
     samples = standard_flow(run, units, deps["std"], vmon, profiles=("fast",), tag="c06")
     pick_samples(run, samples, {u.name: u for u in units})
